@@ -23,10 +23,12 @@ package executors
 
 import (
 	"fmt"
+	"runtime"
 	"sort"
 	"strconv"
 	"strings"
 	"sync"
+	"sync/atomic"
 	"testing"
 	"time"
 
@@ -78,6 +80,80 @@ func c11qBatch(b []int) string {
 		i = j + 1
 	}
 	return strings.Join(out, ".")
+}
+
+// ---- watchdog of the sequential harness: an operation of the public API that does not come back.
+// No operation of this harness blocks on the unchanged tree. If one has not returned after a grace period and every
+// goroutine of the package is parked in several consecutive goroutine dumps (nothing running, nothing runnable: a
+// starved machine shows runnable goroutines and is waited for), the executor is wedged: the observation is `stuck`,
+// and every later operation of the run returns `stuck` at once (the hung goroutine is left behind).
+
+var c11qWedged atomic.Bool
+
+func c11qAllParked() bool {
+	buf := make([]byte, 1<<18)
+	n := runtime.Stack(buf, true)
+	for _, blk := range strings.Split(string(buf[:n]), "\n\n") {
+		if !strings.HasPrefix(blk, "goroutine ") || !strings.Contains(blk, "go-zero/core/executors.") {
+			continue
+		}
+		nl := strings.IndexByte(blk, '\n')
+		if nl < 0 {
+			continue
+		}
+		hdr := blk[:nl]
+		if strings.Contains(blk, "c11qAllParked") {
+			continue // the watchdog itself
+		}
+		if strings.Contains(hdr, "[running") || strings.Contains(hdr, "[runnable") || strings.Contains(hdr, "[syscall") {
+			return false
+		}
+	}
+	return true
+}
+
+func c11qGuard(inner func(op []string) string) func(op []string) string {
+	return func(op []string) string {
+		if c11qWedged.Load() {
+			return "stuck"
+		}
+		ch := make(chan string, 1)
+		go func() {
+			defer func() {
+				if p := recover(); p != nil {
+					ch <- "PANIC " + strings.ReplaceAll(fmt.Sprint(p), "\n", " ")
+				}
+			}()
+			ch <- inner(op)
+		}()
+		grace := time.After(1500 * time.Millisecond)
+		hard := time.After(60 * time.Second)
+		select {
+		case o := <-ch:
+			return o
+		case <-grace:
+		}
+		parked := 0
+		for {
+			select {
+			case o := <-ch:
+				return o
+			case <-hard:
+				c11qWedged.Store(true)
+				return "stuck"
+			case <-time.After(20 * time.Millisecond):
+				if c11qAllParked() {
+					parked++
+				} else {
+					parked = 0
+				}
+				if parked >= 8 {
+					c11qWedged.Store(true)
+					return "stuck"
+				}
+			}
+		}
+	}
 }
 
 func c11qGen(r *verifh.Rng) []verifh.Section {
@@ -284,10 +360,13 @@ func TestVerifC11Seq(t *testing.T) {
 			}
 			return "bad-op"
 		}
-		return step, func() {
-			for _, in := range insts {
-				in.wait()
-			}
+		return c11qGuard(step), func() {
+			c11qGuard(func([]string) string {
+				for _, in := range insts {
+					in.wait()
+				}
+				return ""
+			})(nil)
 		}
 	})
 }
